@@ -66,6 +66,8 @@ type c16tSess struct {
 	fast    bool // a fast-path entry was installed
 	ended   string
 	padts   int
+	// kinds of residue already reported for this session
+	reported map[string]bool
 }
 
 func c16tClass(path string) string {
@@ -336,6 +338,62 @@ func c16RunTeardown(c *sim.Ctx) {
 		sleepBusy(time.Duration(tcfg.PADTRetries+1)*tcfg.PADTRetryDelay + 2*time.Second)
 	}
 
+	// auditAll audits every session that has been ended, under the label of the
+	// steps that ended it so far. It runs after every termination step has
+	// settled and once more at the end; a residue that was reported for a session
+	// under a shorter label is not reported again when a later step leaves it as
+	// it was.
+	auditAll := func() {
+		for _, x := range ss {
+			if x.stage < 1 || x.ended == "" {
+				continue
+			}
+			l := x.ended
+			if l == "keepalive" && kaTerm[x.key] == 0 {
+				continue // nothing at all was done about it: reported once by kaAudit, not once per resource
+			}
+			once := func(kind string) bool {
+				if x.reported[kind] {
+					return false
+				}
+				if x.reported == nil {
+					x.reported = map[string]bool{}
+				}
+				x.reported[kind] = true
+				return true
+			}
+			if x.fast && fast[x.key] && once("fastpath") {
+				c.Fail("fastpath-not-removed", "pppoe-teardown/fastpath/"+l, "session %d (s%d) ended by %s but its fast-path entry was never removed (eBPF callback called with remove=true %d times)", x.id, x.idx, l, removes[x.key])
+			}
+			if s := sm.GetSession(x.id); s != nil && s.SessionID == x.key {
+				if once("table") {
+					c.Fail("session-not-removed", "pppoe-teardown/session-table/"+l, "session %d (s%d) ended by %s but SessionManager.GetSession still returns it (state %v)", x.id, x.idx, l, s.GetState())
+				}
+			} else if s := sm.GetSessionByMAC(x.mac); s != nil && s.SessionID == x.key && once("table-mac") {
+				c.Fail("session-not-removed", "pppoe-teardown/session-table-mac/"+l, "session %d (s%d) ended by %s but SessionManager.GetSessionByMAC still returns it", x.id, x.idx, l)
+			}
+			if x.addr != nil {
+				switch r := pool.releases[x.key]; {
+				case r == 0 && once("address"):
+					c.Fail("address-not-released", "pppoe-teardown/address/"+l, "session %d (s%d, address %v) ended by %s but IPPool.Release was never called for it", x.id, x.idx, x.addr, l)
+				case r > 1 && once("address-twice"):
+					c.Fail("double-release", "pppoe-teardown/address-released-twice/"+l, "session %d (s%d, address %v) ended by %s: IPPool.Release was called %d times for it", x.id, x.idx, x.addr, l, r)
+				}
+			}
+			if withRadius {
+				st := c16stops(acct, x.key)
+				switch {
+				case x.started && st == 0 && once("acct0"):
+					c.Fail("acct", "pppoe-teardown/acct-stops=0/"+l, "session %d (s%d) had its Accounting-Start acknowledged and was ended by %s: the RADIUS server received no Accounting-Stop", x.id, x.idx, l)
+				case st > 1 && once("acct2"):
+					c.Fail("acct", "pppoe-teardown/acct-stops=2/"+l, "session %d (s%d, Accounting-Start acknowledged: %v) was ended by %s: the RADIUS server received %d Accounting-Stop for it (want exactly one)", x.id, x.idx, x.started, l, st)
+				case !x.started && st == 1 && once("probe"):
+					c.S.Probe("stop-without-start")
+				}
+			}
+		}
+	}
+
 	for i, op := range cs.Ops {
 		c.OpIdx = i
 		if c.Failed() {
@@ -434,6 +492,7 @@ func c16RunTeardown(c *sim.Ctx) {
 					label += "+" + path
 				}
 				mark(x, path, label, "all")
+				auditAll()
 				if c.Failed() {
 					break
 				}
@@ -479,6 +538,7 @@ func c16RunTeardown(c *sim.Ctx) {
 			settle()
 			mark(x, p1, label, label)
 			mark(x, p2, label, label)
+			auditAll()
 		}
 	}
 	// quiescence
@@ -486,47 +546,11 @@ func c16RunTeardown(c *sim.Ctx) {
 	c.S.Join(kaTasks...)
 
 	// ---- audit -------------------------------------------------------------------
+	auditAll()
 	liveAddr := map[string]bool{}
 	for _, x := range ss {
-		if x.stage < 1 {
-			continue
-		}
-		if x.ended == "" {
-			if x.addr != nil {
-				liveAddr[x.addr.String()] = true
-			}
-			continue
-		}
-		l := x.ended
-		if l == "keepalive" && kaTerm[x.key] == 0 {
-			continue // nothing at all was done about it: reported once by kaAudit, not once per resource
-		}
-		if x.fast && fast[x.key] {
-			c.Fail("fastpath-not-removed", "pppoe-teardown/fastpath/"+l, "session %d (s%d) ended by %s but its fast-path entry was never removed (eBPF callback called with remove=true %d times)", x.id, x.idx, l, removes[x.key])
-		}
-		if s := sm.GetSession(x.id); s != nil && s.SessionID == x.key {
-			c.Fail("session-not-removed", "pppoe-teardown/session-table/"+l, "session %d (s%d) ended by %s but SessionManager.GetSession still returns it (state %v)", x.id, x.idx, l, s.GetState())
-		} else if s := sm.GetSessionByMAC(x.mac); s != nil && s.SessionID == x.key {
-			c.Fail("session-not-removed", "pppoe-teardown/session-table-mac/"+l, "session %d (s%d) ended by %s but SessionManager.GetSessionByMAC still returns it", x.id, x.idx, l)
-		}
-		if x.addr != nil {
-			switch r := pool.releases[x.key]; {
-			case r == 0:
-				c.Fail("address-not-released", "pppoe-teardown/address/"+l, "session %d (s%d, address %v) ended by %s but IPPool.Release was never called for it", x.id, x.idx, x.addr, l)
-			case r > 1:
-				c.Fail("double-release", "pppoe-teardown/address-released-twice/"+l, "session %d (s%d, address %v) ended by %s: IPPool.Release was called %d times for it", x.id, x.idx, x.addr, l, r)
-			}
-		}
-		if withRadius {
-			st := c16stops(acct, x.key)
-			switch {
-			case x.started && st != 1:
-				c.Fail("acct", fmt.Sprintf("pppoe-teardown/acct-stops=%d/%s", min(st, 2), l), "session %d (s%d) had its Accounting-Start acknowledged and was ended by %s: the RADIUS server received %d Accounting-Stop (want exactly one)", x.id, x.idx, l, st)
-			case !x.started && st > 1:
-				c.Fail("acct", "pppoe-teardown/acct-stops=2/"+l, "session %d (s%d, no Accounting-Start had been sent yet) was ended by %s: the RADIUS server received %d Accounting-Stop for it", x.id, x.idx, l, st)
-			case !x.started && st == 1:
-				c.S.Probe("stop-without-start")
-			}
+		if x.stage >= 1 && x.ended == "" && x.addr != nil {
+			liveAddr[x.addr.String()] = true
 		}
 	}
 	// the addresses of ended sessions are obtainable again, each once
@@ -562,5 +586,5 @@ func c16stops(acct map[string]*c16acct, key string) int {
 }
 
 func init() {
-	c16Variants["pppoe-teardown"] = &c16Variant{gen: c16GenTeardown, run: c16RunTeardown, weight: 400}
+	c16Variants["pppoe-teardown"] = &c16Variant{gen: c16GenTeardown, run: c16RunTeardown, weight: 6}
 }
